@@ -148,6 +148,14 @@ def error_catalogue():
          ("rule-after-global-same-name-as-module", 'import "tests" rule tests { condition: true }'), ("entrypoint-deprecated", R("entrypoint == 0")), ("fail-on-slow", R("$a", "$a = /.*/")),
          ("string-set-empty-wildcard", R("any of ($z*)", '$a = "x"')), ("rule-set-undefined", R("any of (nosuch*)")), ("loop-var-shadow-external", R("for any ext_i in (0..1) : (ext_i == 1)")),
          ("meta-negative-string", "rule r { meta: m = -\"x\" condition: true }"), ("tag-keyword", "rule r : rule { condition: true }"), ("import-inside-rule", 'rule r { import "tests" condition: true }')]
+    # errors raised while writing ONE piece of a chained string (pieces are compiled one after the other; the rest of the chain is pending)
+    cx = " ".join(["(01|02)"] * 129)                     # more than RE_MAX_SPLIT_ID alternations: too complex
+    cxr = "".join(["(x|y)"] * 129)
+    C += [("chain:head-piece-fails", R("$a", "$a = { 0A 0B 0C 0D %s [300] 05 06 07 08 }" % cx)), ("chain:last-piece-fails", R("$a", "$a = { 0A 0B 0C 0D [300] 05 06 07 08 %s }" % cx)),
+          ("chain:middle-piece-fails", R("$a", "$a = { 0A 0B 0C 0D [300] 11 12 13 14 %s [300-400] 05 06 07 08 }" % cx)),
+          ("chain:unbounded-gap-head-fails", R("$a", "$a = { 0A 0B 0C 0D %s [1000-] 05 06 07 08 }" % cx)),
+          ("chain:regex-head-piece-fails", R("$a", "$a = /abcd%s.{300,400}?efgh/" % cxr)), ("chain:regex-last-piece-fails", R("$a", "$a = /abcd.{300,400}?efgh%s/" % cxr)),
+          ("chain:valid", R("$a", "$a = { 0A 0B 0C 0D [300] 05 06 07 08 [300-] 21 22 23 24 }")), ("chain:second-string-fails-after-valid-chain", R("$a or $b", "$a = { 0A 0B 0C 0D [300] 05 06 07 08 } $b = { 0A %s }" % cx))]
     return [("catalogue:" + n, 0, t) for n, t in C]
 
 
